@@ -162,6 +162,34 @@ class Recorder:
                     floor = max(floor, float(fv.max()))
         floor = max(floor, 1.0) if floor else 0.0
         ref = [o.copy() for o in _result_arrays(out, ext)]
+        # same buffers, new content: an identity-keyed cache would answer for the old content.  This variant runs FIRST, directly
+        # after the original call and with the very same argument objects, so that a memo of "the most recent array" (one entry,
+        # keyed on identity) is still primed when the buffers are overwritten; 1-D arrays are reversed, N-D arrays flipped on the
+        # first and last axis.  The verdict is differential (same content through reused and through new objects), so it does not
+        # depend on whether the flipped content is meaningful to the routine.
+        fl = [v for v in _arrays_in(list(a) + list(k.values())) if v.ndim >= 1 and v.dtype.kind in 'fc' and v.size > 1 and v.flags.writeable]
+        if fl:
+            orig = [v.copy() for v in fl]
+            flipped = [np.ascontiguousarray(v[::-1, ...][..., ::-1]) if v.ndim >= 2 else v[::-1].copy() for v in orig]
+            if any(not _same_array(x, y) for x, y in zip(orig, flipped)):
+                try:
+                    self.evals += 2
+                    for v, nv in zip(fl, flipped):
+                        v[...] = nv
+                    np.random.set_state(rng_state)
+                    got = [o.copy() for o in _result_arrays(f(*a, **k), ext)]
+                    fresh_a = [_map_arrays(v, np.copy) for v in a]
+                    fresh_k = {kk: _map_arrays(v, np.copy) for kk, v in k.items()}
+                    np.random.set_state(rng_state)
+                    want = [o.copy() for o in _result_arrays(f(*fresh_a, **fresh_k), ext)]
+                    if not _close_lists(got, want, floor):
+                        self.violation(f'{name}:hygiene:stale-for-reused-buffer',
+                                       f'{name} called again after its argument buffer was overwritten in place answers for the old content')
+                except Exception:   # noqa  -- the flipped content may be outside the routine's domain: not judged
+                    pass
+                finally:
+                    for v, o in zip(fl, orig):
+                        v[...] = o
         # the identical call again (same global RNG state): the answer depends on the arguments only
         self.evals += 1
         try:
@@ -212,31 +240,6 @@ class Recorder:
                     self.violation(f'{name}:hygiene:memory-layout', f'{name} gives a different result for Fortran-ordered copies of its array arguments')
             except Exception as e:   # noqa
                 self.violation(f'{name}:hygiene:memory-layout', f'{name} raised {type(e).__name__} for Fortran-ordered array arguments: {e}')
-        # same buffers, new content: an identity-keyed cache would answer for the old content
-        fl = [v for v in _arrays_in(list(a) + list(k.values())) if v.ndim >= 2 and v.dtype.kind in 'fc' and v.size > 1 and v.flags.writeable]
-        if fl:
-            orig = [v.copy() for v in fl]
-            flipped = [np.ascontiguousarray(v[::-1, ...][..., ::-1]) for v in orig]
-            if any(not _same_array(x, y) for x, y in zip(orig, flipped)):
-                try:
-                    fresh_a = [_map_arrays(v, lambda z: _swap(z, fl, flipped)) for v in a]
-                    fresh_k = {kk: _map_arrays(v, lambda z: _swap(z, fl, flipped)) for kk, v in k.items()}
-                    self.evals += 2
-                    np.random.set_state(rng_state)
-                    want = [o.copy() for o in _result_arrays(f(*fresh_a, **fresh_k), ext)]
-                    for v, nv in zip(fl, flipped):
-                        v[...] = nv
-                    np.random.set_state(rng_state)
-                    got = _result_arrays(f(*a, **k), ext)
-                    if not _close_lists(got, want, floor):
-                        self.violation(f'{name}:hygiene:stale-for-reused-buffer',
-                                       f'{name} called again after its argument buffer was overwritten in place answers for the old content')
-                except Exception:   # noqa  -- the flipped content may be outside the routine's domain: not judged
-                    pass
-                finally:
-                    for v, o in zip(fl, orig):
-                        v[...] = o
-
     def tick(self, n=1):
         self.evals += n
 
